@@ -168,7 +168,12 @@ def install_lasso_monitor():
     def _sorting(self, notsorted_list, predecessors):
         sorted_part, remaining = orig(self, notsorted_list, predecessors)
         if not sorted_part and remaining:
-            raise Lasso(f"sorting pass made no progress; remaining={[n.name for n in remaining]}")
+            names = tuple(n.name for n in remaining)
+            if getattr(self, "_verif_noprog", None) == names:   # loop state repeats: never terminates
+                raise Lasso(f"sorting made no progress twice in a row; remaining={list(names)}")
+            self._verif_noprog = names
+        else:
+            self._verif_noprog = None
         return sorted_part, remaining
     DiGraph._sorting = _sorting
     DiGraph._verif_lasso = True
